@@ -1,5 +1,6 @@
 (* Props/C16.v — weekday navigation lands on the right day inside the right unit.
-   Only theorem statements; every proof is `exact <lemma>` (Proofs/C16Facts.v, Proofs/C16DateTime.v).
+   Only theorem statements; every proof is `exact <lemma>` (Proofs/C16Facts.v, Proofs/C16DateTime.v, Proofs/C16Zone.v,
+   Proofs/C16FirstWeekday.v).
    The functions d_* / t_* are the executable models of Date / DateTime in Model/Weekday.v that the correspondence run of
    tools/props/C16.py compares with /repo on every check (both backends).  A date is identified with its proleptic ordinal
    (date_ord, Spec/Cal.v); wf_date p = p is a date of the supported range (valid, year 1..9999); weekdays are pendulum's
@@ -9,6 +10,7 @@
 From Coq Require Import ZArith Bool.
 From PV Require Import Lib.PyBase Spec.Cal Proofs.CalFacts Model.Weekday Proofs.C16Facts Proofs.C16DateTime.
 From PV Require Import Gen.WeekdayNav Proofs.C16Gen.
+From PV Require Import Spec.Zone Model.WeekdayZone Proofs.C16Zone Proofs.C16FirstWeekday.
 Open Scope Z_scope.
 
 (* ---- next / previous ---- *)
@@ -250,3 +252,125 @@ Print Assumptions translated_DateTime_next_is_model.
 Theorem translated_DateTime_previous_is_model : forall self o keep, py_DateTime_previous self o keep = t_previous self o keep.
 Proof. exact py_DateTime_previous_eq. Qed.
 Print Assumptions translated_DateTime_previous_is_model.
+
+(* ---- DateTime in a tz-database zone (Model/WeekdayZone.v, z_*; a zone is a table of Spec/Zone.v, every instance the methods
+   build goes through Timezone.convert = convert_naive of Model/TzConvert.v).  not_skipped z W: the local time W exists;
+   transparent z tod: no day of the zone skips the time of day tod; okt z tod: tod is a time of day and the zone is transparent
+   at it.  In a zone that is transparent at 00:00 and at the instance's time of day — every fixed offset, every zone (window)
+   that has no gap at these times — each method is the Date method on the date part, at 00:00 (time kept iff keep_time). ---- *)
+Theorem zone_next_is_date_next : forall z, transparent z 0 -> forall p tod f o (keep : bool), wf_date p -> okt z (if keep then tod else 0) ->
+  exists f', z_next z (mkz p tod f) o keep = zlift (d_next p o) (if keep then tod else 0) f'.
+Proof. exact z_next_lift. Qed.
+Print Assumptions zone_next_is_date_next.
+
+Theorem zone_previous_is_date_previous : forall z, transparent z 0 -> forall p tod f o (keep : bool), wf_date p -> okt z (if keep then tod else 0) ->
+  exists f', z_previous z (mkz p tod f) o keep = zlift (d_previous p o) (if keep then tod else 0) f'.
+Proof. exact z_previous_lift. Qed.
+Print Assumptions zone_previous_is_date_previous.
+
+Theorem zone_first_of_is_date_first_of : forall z, transparent z 0 -> forall u p tod f o, wf_date p -> okt z tod ->
+  z_first_of z u (mkz p tod f) o = zlift (d_first_of u p o) 0 f.
+Proof. exact z_first_of_lift. Qed.
+Print Assumptions zone_first_of_is_date_first_of.
+
+Theorem zone_last_of_is_date_last_of : forall z, transparent z 0 -> forall u p tod f o, wf_date p -> okt z tod ->
+  z_last_of z u (mkz p tod f) o = zlift (d_last_of u p o) 0 f.
+Proof. exact z_last_of_lift. Qed.
+Print Assumptions zone_last_of_is_date_last_of.
+
+Theorem zone_nth_of_is_date_nth_of : forall z, transparent z 0 -> forall u p tod f n wd, wf_date p -> valid_wd wd -> okt z tod ->
+  z_nth_of z u (mkz p tod f) n wd = zlift (d_nth_of u p n wd) 0 f.
+Proof. exact z_nth_of_lift. Qed.
+Print Assumptions zone_nth_of_is_date_nth_of.
+
+Theorem fixed_offsets_are_transparent : forall o tod, transparent (fixed_zone o) tod.
+Proof. exact fixed_zone_transparent. Qed.
+Print Assumptions fixed_offsets_are_transparent.
+
+(* a decidable sufficient test: no gap of the table contains a second at the time of day tod (on any day); with it the theorems
+   above apply to concrete tz tables, e.g. the Europe/Paris window of 2013 at 00:00 and 09:30 (paris_2013_transparent) *)
+Theorem transparency_test_is_sound : forall z tod, wf_zone z = true -> tod_ok tod -> transparentb z tod = true -> transparent z tod.
+Proof. exact transparentb_sound. Qed.
+Print Assumptions transparency_test_is_sound.
+
+Theorem zone_theorems_apply_to_paris_2013 : wf2_zone paris_2013 = true /\ transparent paris_2013 0 /\ okt paris_2013 34200000000 /\
+  transparentb paris_2013 9000000000 = false.
+Proof. exact paris_2013_transparent. Qed.
+Print Assumptions zone_theorems_apply_to_paris_2013.
+
+(* in ANY zone: what nth_of (n <> 1) returns is the result of a start_of("day") — the instance walked along with next() is
+   never handed out — and start_of("day") of a day whose midnight exists is that midnight *)
+Theorem zone_nth_of_result_is_normalised : forall z u self n wd r, n <> 1 -> z_nth_of z u self n wd = Ok r ->
+  exists x, z_start_of_day z x = Ok r.
+Proof. exact z_nth_of_normalised. Qed.
+Print Assumptions zone_nth_of_result_is_normalised.
+
+Theorem zone_start_of_day_is_midnight_when_it_exists : forall z x, wf_date (z_date x) -> not_skipped z (wall_of_date (z_date x) 0) ->
+  z_start_of_day z x = Ok (mkz (z_date x) 0 (z_fold x)).
+Proof. exact z_start_of_day_midnight. Qed.
+Print Assumptions zone_start_of_day_is_midnight_when_it_exists.
+
+(* finding skipped-midnight-day (America/Sao_Paulo 2013-10-20, whose 00:00 does not exist): next(SUNDAY) from that day with fold=0
+   stays on the same day; first_of("month") with fold=1 comes back at 01:00 on a day that has a midnight *)
+Theorem zone_next_strictly_later_refuted :
+  exists z x wd r, wf2_zone z = true /\ wf_date (z_date x) /\ valid_wd wd /\
+    z_next z x (Some wd) false = Ok r /\ date_ord (z_date r) <= date_ord (z_date x).
+Proof. exact zone_next_skipped_midnight_refuted. Qed.
+Print Assumptions zone_next_strictly_later_refuted.
+
+Theorem zone_first_of_at_midnight_refuted :
+  exists z x r, wf2_zone z = true /\ wf_date (z_date x) /\ z_first_of z U_MONTH x None = Ok r /\ z_tod r <> 0 /\
+    not_skipped z (wall_of_date (z_date r) 0).
+Proof. exact zone_first_of_skipped_midnight_refuted. Qed.
+Print Assumptions zone_first_of_at_midnight_refuted.
+
+(* ---- the month helpers under calendar.setfirstweekday(fw) (the fw_ functions of Model/WeekdayZone.v): calendar.monthcalendar lays the rows out
+   from weekday fw, the helpers index them with the requested weekday: they answer for weekday (wd + fw) mod 7.
+   Finding calendar-firstweekday: right for fw = 0 (the default) only. ---- *)
+Theorem first_of_under_firstweekday : forall fw u p o, wf_date p -> 0 <= fw <= 6 -> owd_ok o ->
+  fw_first_of fw u p o = d_first_of u p (option_map (fun wd => (wd + fw) mod 7) o).
+Proof. exact fw_first_of_shift. Qed.
+Print Assumptions first_of_under_firstweekday.
+
+Theorem last_of_under_firstweekday : forall fw u p o, wf_date p -> 0 <= fw <= 6 -> owd_ok o ->
+  fw_last_of fw u p o = d_last_of u p (option_map (fun wd => (wd + fw) mod 7) o).
+Proof. exact fw_last_of_shift. Qed.
+Print Assumptions last_of_under_firstweekday.
+
+Theorem first_of_default_firstweekday_partial : forall u p o, wf_date p -> owd_ok o -> fw_first_of 0 u p o = d_first_of u p o.
+Proof. exact fw_first_of_default. Qed.
+Print Assumptions first_of_default_firstweekday_partial.
+
+Theorem last_of_default_firstweekday_partial : forall u p o, wf_date p -> owd_ok o -> fw_last_of 0 u p o = d_last_of u p o.
+Proof. exact fw_last_of_default. Qed.
+Print Assumptions last_of_default_firstweekday_partial.
+
+Theorem nth_of_default_firstweekday_partial : forall u p n wd, is_unit u -> wf_date p -> valid_wd wd -> 1 <= n ->
+  fw_nth_of 0 u p n wd = d_nth_of u p n wd.
+Proof. exact fw_nth_of_default. Qed.
+Print Assumptions nth_of_default_firstweekday_partial.
+
+Theorem nth_of_first_under_firstweekday : forall fw u p wd, is_unit u -> wf_date p -> 0 <= fw <= 6 -> valid_wd wd ->
+  fw_nth_of fw u p 1 wd = d_first_of u p (Some ((wd + fw) mod 7)).
+Proof. exact fw_nth_of_first. Qed.
+Print Assumptions nth_of_first_under_firstweekday.
+
+Theorem nth_of_from_second_ignores_firstweekday : forall fw u p n wd, n <> 1 -> fw_nth_of fw u p n wd = d_nth_of u p n wd.
+Proof. exact fw_nth_of_from_second. Qed.
+Print Assumptions nth_of_from_second_ignores_firstweekday.
+
+Theorem first_of_weekday_under_firstweekday : forall fw u p wd r, is_unit u -> wf_date p -> 0 <= fw <= 6 -> valid_wd wd ->
+  fw_first_of fw u p (Some wd) = Ok r -> dow r = (wd + fw) mod 7.
+Proof. exact fw_first_of_weekday. Qed.
+Print Assumptions first_of_weekday_under_firstweekday.
+
+Theorem first_of_any_firstweekday_refuted :
+  exists fw p wd r, 0 <= fw <= 6 /\ wf_date p /\ valid_wd wd /\
+    fw_first_of fw U_MONTH p (Some wd) = Ok r /\ dow r <> wd /\ d_first_of U_MONTH p (Some wd) <> Ok r.
+Proof. exact first_of_under_firstweekday_refuted. Qed.
+Print Assumptions first_of_any_firstweekday_refuted.
+
+Theorem last_of_any_firstweekday_refuted :
+  exists fw p wd r, 0 <= fw <= 6 /\ wf_date p /\ valid_wd wd /\ fw_last_of fw U_YEAR p (Some wd) = Ok r /\ dow r <> wd.
+Proof. exact last_of_under_firstweekday_refuted. Qed.
+Print Assumptions last_of_any_firstweekday_refuted.
